@@ -17,7 +17,7 @@ META = {
 }
 
 N = 4
-NLS_TARGET = os.path.join(core.BUILD, "target-nls")
+NLS_TARGET = os.environ.get("VERIF_NLS_TARGET") or os.path.join(core.BUILD, "target-nls")
 KNOWN_KEYS = ("self-import-overflow", "closed-buffer-reanalysed", "cycle-entry-order", "references-in-formerly-imported-files")
 
 
